@@ -15,6 +15,7 @@ import numpy as np
 
 from qv.lib import Rec, rng_for
 
+PACKAGE_RAISE_IS_VIOLATION = True  # every shard input is built inside the statement's domain (see qv/shard.py)
 LEVEL = "exploration"
 EXHAUSTIVE = True
 RULE = (
